@@ -371,6 +371,27 @@ def _writer_histories(rec, acct, TdmsFile, TdmsWriter, RootObject, ChannelObject
         acct.expect_clean(before, 'writer_with:' + ('raised' if err else 'returned'),
                           'TdmsWriter with-block %s' % ('raised ' + describe_exc(err) if err else 'exited'))
         del err
+    # one writer object, several consecutive with-blocks (append sessions): every block must release its descriptors
+    wp = os.path.join(d, 'reused.tdms')
+    w = TdmsWriter(wp, mode='a', index_file=case['windex'])
+    for k in range(3):
+        before = open_fds(d)
+        err = None
+        try:
+            with w:
+                w.write_segment([ChannelObject('g', 'c', np.arange(k + 1, dtype='i4'))])
+        except Exception as e:      # noqa
+            err = e
+            acct.raised += 1
+        acct.expect_clean(before, 'writer_reused:block%d' % k, 'with-block %d of a re-used TdmsWriter %s' % (
+            k, 'raised ' + describe_exc(err) if err else 'exited'))
+        del err
+    try:
+        n = len(TdmsFile.read(wp)['g']['c'])
+        if n != 6:
+            rec.violation('writer_reused:content', 'three append sessions wrote 1+2+3 values, the file holds %d' % n)
+    except Exception as e:      # noqa
+        rec.violation('writer_reused:raised', describe_exc(e), key=exc_key(e))
     # writer on caller streams: never closed
     s1, s2 = io.BytesIO(), io.BytesIO()
     try:
